@@ -232,6 +232,14 @@ func checkRun(rr *runResult, drv *vh.Driver) []finding {
 			break
 		}
 		if modelAlive {
+			for _, id := range b.evidence {
+				if got := ms.ask(fmt.Sprintf("EVID %d", id)); got != "ok" && ms.err == nil {
+					add(finding{"correspondence", "model-end", b.num, fmt.Sprintf("block %d: real slashing completed, model says %q for evidence against %d", b.num, got, id), ""})
+					modelAlive = false
+				}
+			}
+		}
+		if modelAlive {
 			got := ms.ask(w.endLine(b))
 			if strings.HasPrefix(got, "ok ") {
 				if f := strings.Fields(got); len(f) >= 3 {
@@ -367,7 +375,7 @@ func checkRun(rr *runResult, drv *vh.Driver) []finding {
 				add(finding{"oracle", "rewards-credit", b.num, fmt.Sprintf("block %d: undistributed rewards %s -> %s but GasRewards %s + subsidy %s", b.num, before, after, b.gasRewards, b.subsidy), ""})
 			}
 			// and nothing else moves between the stake side and balances
-			if cur.tokens.Cmp(prevParts.tokens) != 0 || cur.queue.Cmp(prevParts.queue) != 0 {
+			if len(b.evidence) == 0 && (cur.tokens.Cmp(prevParts.tokens) != 0 || cur.queue.Cmp(prevParts.queue) != 0) {
 				add(finding{"oracle", "stake-outside-period-end", b.num, fmt.Sprintf("block %d: staked tokens / withdraw queue changed outside a period end", b.num), ""})
 			}
 		}
